@@ -78,8 +78,16 @@ def features_of(case, kind, column):
     return f
 
 
-def report(ctx: Ctx, case, res, bad):
-    """shrink on the first oracle failure kind and report one violation per (kind, column)"""
+def history_bad(case):
+    """run the whole history of `case`; -> [(step, case_i, res_i, [(kind, column, detail)])]"""
+    out = []
+    for step, (c, r) in enumerate(X.run_history(case)):
+        out.append((step, c, r, X.oracle(c, r)))
+    return out
+
+
+def report(ctx: Ctx, case, bad):
+    """shrink on each oracle failure kind and report one violation per (kind, column)"""
     seen = set()
     for kind, column, detail in bad:
         if (kind, column) in seen:
@@ -87,34 +95,46 @@ def report(ctx: Ctx, case, res, bad):
         seen.add((kind, column))
 
         def fails(c, kind=kind, column=column):
-            r = X.run_impl(c)
-            return any(k == kind and col == column for k, col, _ in X.oracle(c, r))
-        small = X.shrink(case, fails) if ctx.quick or len(seen) <= 3 else case
+            return any(k == kind and col == column for _, _, _, b in history_bad(c) for k, col, _ in b)
+        small = X.shrink(case, fails) if len(seen) <= 3 else case
         try:
-            r2 = X.run_impl(small)
-            b2 = [d for k, col, d in X.oracle(small, r2) if k == kind and col == column]
+            hb = history_bad(small)
         except Exception:
-            small, r2, b2 = case, res, [detail]
-        rows, ghosts, _ = X.spec_rows(small, r2)
-        spec = [dict(threshold=float(r["truth_threshold"]), **X.recount(small, rows, ghosts, X.Fraction(r["truth_threshold"])))
+            small = case
+            hb = history_bad(case)
+        step, c2, r2, b2 = next(((st, c, r, [d for k, col, d in b if k == kind and col == column])
+                                 for st, c, r, b in hb if any(k == kind and col == column for k, col, _ in b)),
+                                (0, hb[0][1], hb[0][2], [detail]))
+        rows, ghosts, _ = X.spec_rows(c2, r2)
+        spec = [dict(threshold=float(r["truth_threshold"]), **X.recount(c2, rows, ghosts, X.Fraction(r["truth_threshold"])))
                 for r in r2["table"]]
+        feats = features_of(c2, kind, column)
+        feats["after_model_change"] = bool(step)
         ctx.violation(
-            f"accuracy output is not the recount ({kind}{' ' + column if column else ''}): {(b2 or [detail])[0]}",
-            {"case": small, "implementation": {"table": r2["table"], "errors": r2["errors"]},
+            f"accuracy output is not the recount ({kind}{' ' + column if column else ''}"
+            f"{', call after a model change on the same linker' if step else ''}): {(b2 or [detail])[0]}",
+            {"case": small, "failing_call": step, "implementation": {"table": r2["table"], "errors": r2["errors"]},
              "specification": {"recount_at_reported_thresholds": spec, "detail": b2 or [detail]}},
-            features_of(small, kind, column))
+            feats)
 
 
 def run_one(ctx, case):
-    res = X.run_impl(case)
-    scores = [X.Fraction(r["match_weight"]) for r in res["lwp"]]
-    if X.near_rounding_boundary(case, scores):
-        return None, None, None
-    return res, X.case_terms(case, res), X.oracle(case, res)
+    """-> list of (case_i, res_i, terms, bad) per call of the history (None entries = skipped)"""
+    out = []
+    for c, res in X.run_history(case):
+        scores = [X.Fraction(r["match_weight"]) for r in res["lwp"]]
+        if X.near_rounding_boundary(c, scores):
+            out.append(None)
+            continue
+        out.append((c, res, X.case_terms(c, res), X.oracle(c, res)))
+    return out
 
 
 def run(ctx: Ctx):
-    ctx.cov["rule"] = ("X: seeded (tables 1-3, link type, 0-3 blocking rules incl. asymmetric, 2 comparisons with fixed m/u, "
+    ctx.cov["rule"] = ("X: histories on one linker [accuracy table + prediction errors; change of the model (m/u, prior, "
+                       "estimate_u, estimate_probability_two_random_records_match) without invalidate_cache; the calls again, "
+                       "possibly in the other label mode], every call checked against the scores of the CURRENT model taken "
+                       "from fresh linkers; cases: seeded (tables 1-3, link type, 0-3 blocking rules incl. asymmetric, 2 comparisons with fixed m/u, "
                        "mode table|column, labels in both orientations / duplicated / for missing records / NULL scores, "
                        "label column with NULLs, threshold_actual in {0,.25,.5,.75,1}, rounding None|dyadic|0.1|0.3, "
                        "scored-as-zero on/off, prediction-error threshold and include flags); a case is non-trivial when "
@@ -137,7 +157,7 @@ def run(ctx: Ctx):
         rp = json.loads(open(ctx.replay).read())
         cases = [rp["case"]] if "case" in rp else []
     else:
-        n = 120 if ctx.quick else 1500
+        n = 90 if ctx.quick else 1000
         cases = []
         for i in range(n):
             backend = "sqlite" if i % 3 == 2 else "duckdb"
@@ -150,33 +170,38 @@ def run(ctx: Ctx):
     found_any = False
     for ci, case in enumerate(cases):
         try:
-            res, ts, bad = run_one(ctx, case)
+            steps = run_one(ctx, case)
         except Exception:
             tb = traceback.format_exc()
             ctx.log("implementation/harness raised on case", ci, tb[-1500:])
             ctx.violation("accuracy functions raised on a valid input (or the harness could not drive them)",
                           {"case": case, "traceback": tb}, features_of(case, "raise", None))
             continue
-        if res is None:
-            skipped += 1
-            continue
-        d = X.describe_nontrivial(case, res)
-        nontrivial = d["rows"] >= 2 and 0 < d["positives"] and (d["unfound"] > 0 or d["score_ties"] > 0)
-        ctx.count_case(json.dumps(case, sort_keys=True, default=str), nontrivial,
-                       {"mode": case["mode"], "backend": case["backend"], "link_type": case["link_type"],
-                        "rules": case["rules"], "round": case["round"], **d})
-        ctx.hist("mode", case["mode"]); ctx.hist("backend", case["backend"]); ctx.hist("link_type", case["link_type"])
-        ctx.hist("rounding", case["round"]); ctx.hist("n_rules", len(case["rules"])); ctx.hist("table_rows", min(d["rows"], 10))
-        ctx.hist("unfound_pairs", min(d["unfound"], 5)); ctx.hist("threshold_actual", case["ta"])
-        ctx.hist("error_rows", min(len(res["errors"]), 5))
-        for t in ts:
-            terms.append(t)
-            owners.append(ci)
-        if bad:
+        all_bad = []
+        for si, st in enumerate(steps):
+            if st is None:
+                skipped += 1
+                continue
+            c, res, ts, bad = st
+            d = X.describe_nontrivial(c, res)
+            nontrivial = d["rows"] >= 2 and 0 < d["positives"] and (d["unfound"] > 0 or d["score_ties"] > 0)
+            ctx.count_case(json.dumps(c, sort_keys=True, default=str), nontrivial,
+                           {"mode": c["mode"], "backend": c["backend"], "link_type": c["link_type"],
+                            "rules": c["rules"], "round": c["round"], "call": si, **d})
+            ctx.hist("mode", c["mode"]); ctx.hist("backend", c["backend"]); ctx.hist("link_type", c["link_type"])
+            ctx.hist("rounding", c["round"]); ctx.hist("n_rules", len(c["rules"])); ctx.hist("table_rows", min(d["rows"], 10))
+            ctx.hist("unfound_pairs", min(d["unfound"], 5)); ctx.hist("threshold_actual", c["ta"])
+            ctx.hist("error_rows", min(len(res["errors"]), 5))
+            ctx.hist("call_in_history", "first" if si == 0 else "after " + str((c.get("step") or {}).get("after_change")))
+            for t in ts:
+                terms.append(t)
+                owners.append(ci)
+            all_bad += bad
+        if all_bad:
             found_any = True
             if reported < 4:
                 reported += 1
-                report(ctx, case, res, bad)
+                report(ctx, case, all_bad)
     ctx.cov["skipped_near_rounding_boundary"] = skipped
     bad_idx, errs = ctx.eval_cases("C15_x", X.HEADER, terms, "run_case", shard=60)
     for e in errs:
